@@ -656,6 +656,7 @@ func main() {
 		{"factoryOpts", []string{"FactoryOpts.lean"}, genFactoryOpts},
 		{"stdoutSrc", []string{"StdoutSrc.lean"}, genStdoutSrc},
 		{"timeSrc", []string{"TimeSrc.lean"}, genTimeSrc},
+		{"posLits", []string{"PosLits.lean"}, genPosLits},
 	}
 	status := map[string]interface{}{}
 	failed := 0
